@@ -142,11 +142,21 @@ def translate_source():
     h.update(open(os.path.join(ROOT, "tools/cxxvec2coq.py"), "rb").read())
     h.update(open(os.path.join(ROOT, "tools/cxxloop2coq.py"), "rb").read())
     h.update(open(os.path.join(ROOT, "tools/cxxgmp2coq.py"), "rb").read())
+    h.update(open(os.path.join(ROOT, "tools/cxxos2coq.py"), "rb").read())
+    for f in ("lib/prng/randombytes.cpp", "include/nfl/prng/randombytes.h"):
+        if os.path.exists(os.path.join(REPO, f)): h.update(open(os.path.join(REPO, f), "rb").read())
     tag = "(* source-hash %s *)" % h.hexdigest()
-    dst = os.path.join(COQ, "gen/Gen.v"); dstv = os.path.join(COQ, "gen/GenVec.v"); dstl = os.path.join(COQ, "gen/GenLoop.v"); dstg = os.path.join(COQ, "gen/GenGmp.v")
+    dst = os.path.join(COQ, "gen/Gen.v"); dstv = os.path.join(COQ, "gen/GenVec.v"); dstl = os.path.join(COQ, "gen/GenLoop.v"); dstg = os.path.join(COQ, "gen/GenGmp.v"); dsto = os.path.join(COQ, "gen/GenOs.v")
     with Lock("translate_source"):
-        if all(os.path.exists(d) and tag in open(d).read(200) for d in (dst, dstv, dstl, dstg)):
+        if all(os.path.exists(d) and tag in open(d).read(200) for d in (dst, dstv, dstl, dstg, dsto)):
             return True, "cached"
+        # the key source (lib/prng/randombytes.cpp)
+        tmpo = dsto + ".tmp"
+        rco, outo = sh([sys.executable, os.path.join(ROOT, "tools/cxxos2coq.py"), REPO, tmpo], timeout=300)
+        if rco != 0 or not os.path.exists(tmpo):
+            open(dsto, "w").write(tag + "\n(* translation failed: %s *)\n" % outo[-500:].replace("*)", "* )"))
+        else:
+            open(dsto, "w").write(tag + "\n" + open(tmpo).read()); os.remove(tmpo)
         # the big-integer side (gmp.hpp): independent of the other translations
         tmpg = dstg + ".tmp"
         rcg, outg = sh([sys.executable, os.path.join(ROOT, "tools/cxxgmp2coq.py"), REPO, tmpg], timeout=900)
@@ -197,9 +207,9 @@ def read_params():
 
 # ---------------------------------------------------------------- prove
 def coq_makefile():
-    if not all(os.path.exists(os.path.join(COQ, g)) for g in ("gen/Gen.v", "gen/GenVec.v", "gen/GenLoop.v", "gen/GenGmp.v")):
+    if not all(os.path.exists(os.path.join(COQ, g)) for g in ("gen/Gen.v", "gen/GenVec.v", "gen/GenLoop.v", "gen/GenGmp.v", "gen/GenOs.v")):
         translate_source()
-    vs = sorted(f for f in os.listdir(COQ) if f.endswith(".v") and f != "Extract.v") + ["gen/Params.v", "gen/Gen.v", "gen/GenVec.v", "gen/GenLoop.v", "gen/GenGmp.v"]
+    vs = sorted(f for f in os.listdir(COQ) if f.endswith(".v") and f != "Extract.v") + ["gen/Params.v", "gen/Gen.v", "gen/GenVec.v", "gen/GenLoop.v", "gen/GenGmp.v", "gen/GenOs.v"]
     txt = "-Q . NTT\n" + "\n".join(vs) + "\n"
     p = os.path.join(COQ, "_CoqProject")
     if not os.path.exists(p) or open(p).read() != txt or not os.path.exists(os.path.join(COQ, "Makefile")):
